@@ -374,7 +374,7 @@ def sample_file(preamble, lem, seed=1, root=ROOT):
         out.append("Eval vm_compute in (%s)." % lem["rhs"])
         return "\n".join(out) + "\n", []
     # a statement that converts to unary nat cannot be evaluated on huge numbers
-    cap = 300 if re.search(r"to_nat|onat", lem["stmt"]) else (1 << 64) - 1
+    cap = 300 if re.search(r"to_nat|onat|mkL", lem["stmt"]) else (1 << 64) - 1
     nsets = {}
     for n, ty in bs:
         if ty == "N":
@@ -620,7 +620,9 @@ def run(repo, root, log, tag=None):
         res.update(ok=False, detail="tie lemmas still failing after 12 rounds")
     res["fallback_to_pinned"] = sorted(set(list(use_pinned) + list(res["untranslatable"])))
     res["translated"] = [n for n in report["translated"]]
-    res["tied_by_proof"] = [n for n in report["translated"] if report["functions"][n]["target"]] if res["ok"] else []
+    mentioned = set(f for l in lemmas for f in l["fns"])
+    res["tied_by_proof"] = [n for n in report["translated"] if report["functions"][n]["target"] and n in mentioned] if res["ok"] else []
+    res["translated_not_tied"] = [n for n in report["translated"] if report["functions"][n]["target"] and n not in mentioned]
     res["seconds"] = round(time.time() - t_start, 2)
     if res["ok"] and not cached:
         try:
